@@ -260,7 +260,7 @@ def gen_pair(rng):
         # sets, frozensets, tuples, None and type changes
         def small():
             return rng.choice([None, 1, "a", 2.5, True, b"ab", (1, 2), [1], {1, 2}, frozenset([1, "a"]), {"k": None}, {1: 2, None: 3}])
-        keys = rng.sample(["a", "b", "c", "d", 1, 2, None, True, 0.5], rng.randint(1, 5))
+        keys = list({q: 0 for q in rng.sample(["a", "b", "c", "d", 1, 2, None, True, 0.5], rng.randint(1, 5))})
         t1 = {q: small() for q in keys}
         t2 = dict(t1)
         for q in rng.sample(keys, rng.randint(1, len(keys))):
@@ -268,8 +268,8 @@ def gen_pair(rng):
             if r < 0.6:
                 t2[q] = small()
             elif r < 0.8:
-                del t2[q]
-            elif isinstance(t2[q], set):
+                t2.pop(q, None)
+            elif isinstance(t2.get(q), set):
                 t2[q] = set(t2[q]) ^ {rng.choice([1, 3, "z"])}
         if rng.random() < 0.4:
             t2[rng.choice(["new", 9, "n2"])] = small()
@@ -364,32 +364,41 @@ def one_case(ctx, rng, idx, out):
     res2 = P.real_load(b2, None)
     if res2["cls"] != "ok" or not typed_payload_eq(res2["result"], payload):
         ctx.fail(dict(case, path="pickle", stage="second dump"), "dumping the reloaded delta again gives a different payload")
-    # file object and path
-    alts = [("bytes", d2)]
+    # file object and path; every application below uses a FRESH delta object (a Delta whose
+    # application raised keeps internal state and behaves differently the next time: not C14's subject)
+    mk = {"orig": lambda: Delta(dd, bidirectional=bid, always_include_values=aiv),
+          "bytes": lambda: Delta(b1, bidirectional=bid, always_include_values=aiv)}
     if idx % 3 == 0:
         fn = os.path.join(ctx.scratch, "delta_%d.bin" % (idx % 7))
         with open(fn, "wb") as f:
             d.dump(f)
-        with open(fn, "rb") as f:
-            d3 = Delta(delta_file=f, bidirectional=bid, always_include_values=aiv)
-        d4 = Delta(delta_path=fn, bidirectional=bid, always_include_values=aiv)
-        for nm, dx in (("file", d3), ("path", d4)):
-            if not typed_payload_eq(dx.diff, payload):
+
+        def from_file():
+            with open(fn, "rb") as f:
+                return Delta(delta_file=f, bidirectional=bid, always_include_values=aiv)
+        mk["file"] = from_file
+        mk["path"] = lambda: Delta(delta_path=fn, bidirectional=bid, always_include_values=aiv)
+        for nm in ("file", "path"):
+            if not typed_payload_eq(mk[nm]().diff, payload):
                 ctx.fail(dict(case, path="pickle", stage=nm), "Delta loaded from %s carries a different payload" % nm)
-        alts += [("file", d3), ("path", d4)]
         ctx.count("source:file+path")
     # behaviour on three bases
     bases = [t1, perturb(rng, t1), perturb(rng, perturb(rng, t1))]
+    wants = []
     for bi, base in enumerate(bases):
-        want = apply_delta(base, d)
-        for nm, dx in alts:
-            got = apply_delta(base, dx)
+        want = apply_delta(base, mk["orig"]())
+        wants.append(want)
+        ctx.count("behaviour:" + want[0])
+        for nm in mk:
+            if nm == "orig":
+                continue
+            got = apply_delta(base, mk[nm]())
             if got != want:
                 ctx.fail(dict(case, path="pickle", stage="behaviour", source=nm, base=repr(base), original=want, reloaded=got),
                          "the reloaded delta (%s) behaves differently from the original on base #%d" % (nm, bi))
     if bid:
-        want = apply_delta(t2, d, sub=True)
-        got = apply_delta(t2, d2, sub=True)
+        want = apply_delta(t2, mk["orig"](), sub=True)
+        got = apply_delta(t2, mk["bytes"](), sub=True)
         if got != want:
             ctx.fail(dict(case, path="pickle", stage="behaviour-sub", original=want, reloaded=got),
                      "t2 - reloaded delta differs from t2 - original delta")
@@ -441,8 +450,8 @@ def one_case(ctx, rng, idx, out):
                 ctx.fail(dict(jcase, stage="payload", loaded=repr(dj2.diff), nonetype_only=nt),
                          "the JSON round trip changes the payload")
             for bi, base in enumerate(bases):
-                want = apply_delta(base, d)
-                got = apply_delta(base, dj2)
+                want = wants[bi]
+                got = apply_delta(base, Delta(text, deserializer=json_loads, serializer=json_dumps, bidirectional=bid, always_include_values=aiv))
                 if got != want:
                     ctx.fail(dict(jcase, stage="behaviour", base=repr(base), original=want, reloaded=got),
                              "the delta reloaded from JSON behaves differently on base #%d" % bi)
@@ -545,17 +554,33 @@ def parse_shown(txt):
     return progs
 
 
+def coq_eval_big(ctx, name, header, expr, timeout=900):
+    """ctx.coq_eval with a larger OCaml stack (printing a long string recurses)"""
+    import re
+    fn = os.path.join(ctx.scratch, "eval_%s.v" % name)
+    with open(fn, "w") as f:
+        f.write("From Coq Require Import List String ZArith NArith Bool.\nImport ListNotations.\nFrom DD Require Import Base.Sx.\n")
+        f.write(header + "\nLocal Open Scope string_scope.\nEval vm_compute in (%s).\n" % expr)
+    rc, out = core.sh("ulimit -s 4000000 2>/dev/null || ulimit -s unlimited 2>/dev/null; coqc -Q %s DD %s" % (core.THEORIES, fn),
+                      timeout=timeout, cwd=ctx.scratch)
+    m = re.search(r'"BEGIN\n(.*)END"', out, re.S)
+    if rc != 0 or not m:
+        ctx.break_("correspondence", {"name": name, "error": "coqc failed: " + out[-1500:]})
+        return None
+    return m.group(1).replace('""', '"')
+
+
 def encoder_part(ctx, items):
     """items: (pv term, canonical payload, case)"""
     if not items:
         return
     from deepdiff.serialization import pickle_load
     hdr = "From DD Require Import Base.PyStr Base.Value Pickle.Vm Pickle.Codec Pickle.PickleShow.\nLocal Open Scope Z_scope."
-    chunk = 60
+    chunk = 20
     n_ok = 0
     for i in range(0, len(items), chunk):
         part = items[i:i + chunk]
-        txt = ctx.coq_eval("c14_enc_%d" % (i // chunk), hdr,
+        txt = coq_eval_big(ctx, "c14_enc_%d" % (i // chunk), hdr,
                            '"BEGIN" ++ nl ++ show_progs (map enc_prog [%s]) ++ "END"' % "; ".join(p for p, _c, _k in part))
         if txt is None:
             continue
